@@ -12,6 +12,7 @@ type GenOpts struct {
 	Stratified bool // steer references so that most grammars are stratified (checked afterwards by Strata)
 	LRFree     bool // unguarded references only to lower-numbered nonterminals
 	Trims      bool // wrap some sub-expressions in text.LeftTrim / text.RightTrim (no reference semantics: C02/C07 only)
+	RTrimSeqs  bool // with Trims and LeftTrims: RightTrim too, but only around sequence-like operands (they build a fresh node: K1 cannot reach a shared one)
 	LeftTrims  bool // with Trims: LeftTrim only (RightTrim moves its operand's end in place: known finding K1)
 	Ends       bool // allow parser.End() as a leaf (sequences that end at the end of the input)
 	Ops        []Op // operator pool (nil: all)
@@ -75,7 +76,11 @@ func (gn *generator) gen(depth int, c genCtx) *Expr {
 	e := gn.gen0(depth, c)
 	if gn.o.Trims && gn.r.Intn(5) == 0 {
 		op := OpLTrim
-		if gn.r.Intn(3) == 0 && !gn.o.LeftTrims {
+		if gn.o.RTrimSeqs {
+			if IsSeqLike(e.Op) && gn.r.Intn(2) == 0 {
+				op = OpRTrim
+			}
+		} else if gn.r.Intn(3) == 0 && !gn.o.LeftTrims {
 			op = OpRTrim
 		}
 		w := gn.g.Mk(op, e)
